@@ -15,7 +15,10 @@ def main():
     base = json.load(open("/root/.vp/BASELINE.json"))
     stable = set(base["stable_pass"])
     fd, junit = tempfile.mkstemp(suffix=".xml", dir="/dev/shm"); os.close(fd)
-    env = dict(os.environ, PYTHONPATH=tree, NO_ET="true")
+    # private default cache: a few tests use pydra's default run cache (~/.cache/pydra), which concurrent or aborted suite
+    # runs pollute with stale results
+    xdg = tempfile.mkdtemp(prefix="xdg_", dir="/dev/shm")
+    env = dict(os.environ, PYTHONPATH=tree, NO_ET="true", XDG_CACHE_HOME=xdg)
     env.pop("NIPYPE_PYDRA_VERIF", None)
     cmd = ["/venv/bin/python", "-m", "pytest", "-q", "-p", "no:cacheprovider", "--timeout=900",
            "--continue-on-collection-errors", "-n", n, f"--junitxml={junit}", *args]
@@ -32,6 +35,8 @@ def main():
                 other[tid] = kids[0]
     finally:
         os.unlink(junit)
+        import shutil
+        shutil.rmtree(xdg, ignore_errors=True)
     if args:  # subset run: only judge the tests that were collected
         stable = {t for t in stable if t in passed or t in other}
     missing = sorted(stable - passed)
